@@ -225,6 +225,13 @@ func (ph *ptraceHandle) handle(pid int, wstatus unix.WaitStatus) (status runner.
 				ph.Handler.Debug("ptrace stop exec")
 
 			default:
+				// a trap stop without ptrace event after execve is a SIGTRAP raised by the
+				// program itself (int3, raise): deliver it like any other signal
+				if trapCause == 0 && ph.execved {
+					ph.Handler.Debug("ptrace SIGTRAP from program")
+					unix.PtraceCont(pid, int(stopSig))
+					return
+				}
 				ph.Handler.Debug("ptrace unexpected trap cause: ", trapCause)
 			}
 			unix.PtraceCont(pid, 0)
